@@ -24,7 +24,7 @@ def run(pids=None, standin=False, verbose=True):
                 print('STALE', m['name'])
                 continue
             open(p, 'w').write(s.replace(m['old'], m['new'], 1))
-            env = dict(os.environ, PYVC_REPO_SRC=os.path.join(d, 'src'))
+            env = dict(os.environ, PYVC_REPO_SRC=os.path.join(d, 'src'), PYVC_OUT_DIR=d)
             cmd = [os.path.join(HERE, 'vcheck'), m['property']] + ([] if standin else ['--no-standin'])
             r = subprocess.run(cmd, env=env, capture_output=True, text=True)
             viol = [l for l in r.stdout.splitlines() if l.startswith('VIOLATION')]
